@@ -1327,6 +1327,12 @@ func c01L8Module() ([]c01Fn, [][]*c01N) {
 		bl(sRet(nCall("boom", pi))),
 		bl(sDecl("n", pi), sDecl("i", nInt(0)), sWhile(nBin("<", nVar("i"), nVar("n")), bl(sSet("i", nBin("+", nVar("i"), nInt(1))))), sRet(nVar("i"))),
 	}
+	// the other ways a loop is left: break, return from inside the body, a runtime error in the body
+	inc := sSet("i", nBin("+", nVar("i"), nInt(1)))
+	reached := nBin(">=", nVar("i"), nVar("n"))
+	for _, exit := range []*c01N{sBreak(), sRet(nVar("i")), sDecl("z", nBin("/", nInt(1), nInt(0)))} {
+		routes = append(routes, bl(sDecl("n", pi), sDecl("i", nInt(0)), sWhile(nBool(true), bl(inc, sIf(reached, bl(exit)))), sRet(nVar("i"))))
+	}
 	return fns, routes
 }
 
@@ -1335,6 +1341,9 @@ const (
 	l8Step
 	l8Boom
 	l8Loop
+	l8LoopBreak
+	l8LoopReturn
+	l8LoopError
 )
 
 type l8Req struct {
@@ -1449,6 +1458,20 @@ func c01L8(thorough bool, e func(func() c01Case), b map[string]any) {
 			n++
 		}
 	}
+	// the loop limit after a loop that was left in each of the four ways
+	exits := 0
+	for _, k := range []int{l8Loop, l8LoopBreak, l8LoopReturn, l8LoopError} {
+		for ji, j := range []l8Req{{l8Loop, "999999"}, {l8Loop, "1000000"}, {l8Loop, "3"}} {
+			if !thorough && ji > 0 {
+				continue
+			}
+			e(func() c01Case { return l8Case([]l8Req{{k, "3"}}, j) })
+			n++
+			exits++
+		}
+	}
+	b["L8_loop_exit_forms"] = fmt.Sprintf("the counting loop at 999999 rounds (thorough: and at 10^6, 3) after a 3-round loop left by its condition / break / return from the body / a runtime error in the body: %d cases", exits)
+	n -= exits
 	b["L8_histories_with_refused_evaluations"] = fmt.Sprintf("module of 3 recursive functions (recursion in an expression / from a statement / ending in a runtime error) + a counting while loop; %d histories = every sequence of ≤ %d requests over {too deep ×3 forms, runtime error 100 frames down, small} × %d judged requests (depths 0,1,5,30,100 and every depth within ±%d of the deepest that fits on a fresh interpreter — measured on the tree under test by scanning depths 0..%d: %d and %d — for 2 recursion forms, 2 failing requests, a 3-round loop): %d cases; + %d histories with a refused loop (10^6+1 rounds) × %d judged requests (loop of 3 rounds and at the limit: 999999, 10^6 rounds (thorough: 999998..1000001), both recursion forms at (thorough: and just past) the deepest that fits) and the loop at 999999 (thorough: and 10^6) rounds after a too-deep request and after a runtime error 100 frames down (thorough: after each single request of the alphabet): %d cases",
 		len(hists), maxLen, len(judged), win, scanMax, fit[l8Down], fit[l8Step], cheap, len(loopHists), len(loopJudged), n-cheap)
 }
